@@ -366,6 +366,9 @@ def run_concurrent(ctx, bname, chunks, disc, tasks, ryield):
                     r = ("val", await req.form)
                 elif op == "stream":
                     r = ("val", b"".join([c async for c in req.stream()]))
+                elif op == "close":
+                    await req.close()  # closing while other tasks are still waiting for the body / form must not take anything away from them
+                    r = ("close",)
             except HTTPException as e:
                 r = ("HTTP", e.status_code)
             except ClientDisconnect:
@@ -400,6 +403,10 @@ def run_concurrent(ctx, bname, chunks, disc, tasks, ryield):
     complete = 0
     shared_objs = {}
     for tid, op, r in results:
+        if op == "close":
+            if r[0] == "EXC":
+                V("unexpected-exception|close", r[1])
+            continue  # (close() after a failed form re-raises that form's HTTP error: tolerated, as in the sequential model)
         if r[0] == "EXC":
             V(f"unexpected-exception|{op}", r[1])
         if r[0] == "disconnect" and disc is None:
@@ -431,7 +438,7 @@ def run_concurrent(ctx, bname, chunks, disc, tasks, ryield):
                 V(f"compute-once-broken|{op}")
     if pending:
         V("task-never-finished")
-    body_touching = [op for op in ops if not (op == "json" and ct != "application/json") and not (op == "form" and bname not in FORM_VALS)]
+    body_touching = [op for op in ops if op != "close" and not (op == "json" and ct != "application/json") and not (op == "form" and bname not in FORM_VALS)]
     if disc is None and body_touching and complete == 0:
         if not all(r[0] == "HTTP" for _, op, r in results if op in body_touching):
             V("body-lost(no accessor obtained it)")
@@ -536,7 +543,7 @@ def run(ctx):
     # ---- concurrent
     vectors = set()
     cidx = 0
-    cops = ["body", "json", "form", "stream"]
+    cops = ["body", "json", "form", "stream", "close"]
     for bname in ("json", "urlenc", "multipart"):
         body = BODIES[bname][0]
         for chunks in ([body], [body[:3], body[3:]], [b"", body[:1], body[1:], b""]):
